@@ -129,7 +129,7 @@ def check(prop, tier):
             o = sc['outs'][0]
             if o['out']['adversarial']:
                 continue
-            jobs.append((sc, o['cfg'], o['out'], 2 + li % 3, None))
+            jobs.append((sc, dict(o['cfg'], names=1) if li % 2 else o['cfg'], o['out'], 2 + li % 3, None))    # every other one with the alternate spellings of names
         with Pool(12) as pool:
             outs = pool.map(p_tool.run_one, jobs, chunksize=16)
         nb = 0
